@@ -146,6 +146,15 @@ def run(ctx, model_ok):
                 # the first time comes from a variable bound on an earlier line (same default zone)
                 text = f"a = {ttxt}\na to {h2}:{m2:02d}"
             inst, zn, zo = abs((h2 * 3600 + m2 * 60) - wall), None, None
+            kv = rng.random()
+            if kv < 0.2:
+                # both times carry the same explicit zone and come from variables: the difference of the instants is the
+                # difference of the wall clocks, whatever the default zone is
+                text = f"a = {ttxt} {z1t}\nb = {h2}:{m2:02d} {z1t}\na to b"
+            elif kv < 0.3:
+                # a time of the default zone against a time in an explicit zone: the difference of the two instants
+                text = f"{ttxt} to {h2}:{m2:02d} {z1t}"
+                inst = abs((h2 * 3600 + m2 * 60 - o1 * 60) - (wall - doff * 60))
         cases.append({"cfg": cfg, "text": text, "kind": kind, "inst": inst, "zn": zn, "zo": zo, "nontriv": (kind == "convert" and o1 != o2) or kind in ("add", "sub", "zone")})
     ops = []
     for c in cases:
